@@ -110,14 +110,14 @@ def exhaustive_instances(thorough):
     ]
     if thorough:
         out = [
-            ("xall", C(pool=("Lun", "Lcirc"), natk=("Lpriv", "Lun"), natc=("-", "Npub", "Nun"), obsk=("Lpriv", "Ri2"), obsc=("e", "c", "n"),
-                       relay=REL, reach=RCH, fm=("id", "droppub", "add"), first=False, close=1, env=4, notify=2), 4),
-            ("xsplit", C(pool=("Lun",), natk=("Lpriv",), natc=("-", "Npub"), obsk=("Lpriv", "Ri1"), obsc=("e", "c"), relay=((), ("Rel1",)),
-                         reach=("private",), fm=("id", "const"), split=True, first=False, close=1, env=4, notify=2), 4),
-            ("xtrk", C(pool=("Lpub", "Lun"), obsk=("Lpriv",), obsc=("e", "b"), relay=((), ("Rel1",)), tracker=True, first=False, close=1,
-                       env=4, t=2, hour=2, notify=2), 4),
+            ("xall", C(pool=("Lun",), natk=("Lpriv",), natc=("-", "Npub", "Nun"), obsk=("Lpriv", "Ri2"), obsc=("e", "c", "n"),
+                       relay=((), ("Rel1",)), reach=("private", "public"), fm=("id", "droppub"), first=False, close=1, env=3, notify=2), 1),
+            ("xsplit", C(pool=("Lun",), natk=("Lpriv",), natc=("-", "Npub"), obsk=("Lpriv", "Ri1"), obsc=("e", "c"), relay=(("Rel1",),),
+                         reach=("private",), fm=("id", "const"), split=True, first=False, close=1, env=3, notify=1), 1),
+            ("xtrk", C(pool=("Lpub",), obsk=("Lpriv",), obsc=("e", "a"), relay=((), ("Rel1",)), tracker=True, first=False, close=1,
+                       env=3, t=2, hour=1, notify=1), 1),
             ("xtrks", C(pool=("Lpriv",), init=("Lpub",), obsk=("Lpriv",), obsc=("e", "a"), relay=(("Rel1",),), tracker=True, split=True,
-                        first=False, close=1, env=3, t=2, hour=1), 2),
+                        first=False, close=1, env=2, t=1, hour=1), 1),
         ]
     return out
 
